@@ -171,6 +171,12 @@ def cases(tier, rng):
           ["select", [1, 0]], ["add_note", C4], ["select", [0, 1]], ["add_note", E3]]
     yield Case("comp.run", [sc], "composition/one-track-refuses", model=False, kind=("comp",))
     yield Case("comp.misc", [[]], "composition/misc", model=False, kind=("misc",))
+    # a Bar handed to a composition: appended as a bar to exactly the selected tracks
+    for sel in ([0, 1], [1], [0]):
+        # (with two tracks selected both receive THE SAME Bar object - the caller's choice - so nothing is added after it there)
+        sc = [["add_track", "none"], ["add_track", "none"], ["select", sel], ["add_note", C4], ["add_bar_obj", "D", 3, 4]] + \
+             ([["add_note", C4]] if len(sel) == 1 else [])
+        yield Case("comp.run", [sc], "composition/bar-object", model=False, kind=("compbar", tuple(sel)))
     # composition equality: the same tracks in the same order, as often as they occur
     A_, B_, C_ = [["add", C4, 4]], [["add", CHORD, 2]], [["add", None, 4], ["add", E3, 4]]
     for x, y in (([A_, B_], [A_, B_]), ([A_, B_], [B_, A_]), ([A_, A_, B_], [A_, B_, B_]), ([A_, B_, C_], [C_, B_, A_]), ([A_], [A_, A_]),
@@ -394,6 +400,19 @@ def oracle(c, obs):
             if st[0] is not True or len(flat) != i + 1 or flat[-1][2] != want:
                 return "a chord given as a list of names %s was stored as %s, expected %s" % (
                     c["args"][1][0][1], flat[-1][2] if flat else None, want)
+        return None
+    if kind[0] == "compbar":
+        sel = list(kind[1])
+        if isinstance(obs, Err):
+            return "raised"
+        for ti, t in enumerate(obs):
+            if ti in sel:
+                shape = [(len(b[4]), b[5], b[6]) for b in t]
+                want = [(1, [4, F(4)], "C"), (1 if len(sel) == 1 else 0, [3, F(4)], "D")]
+                if shape != want:
+                    return "a Bar added to the composition: selected track %d holds bars %s, expected %s" % (ti, shape, want)
+            elif t != []:
+                return "a Bar added to the composition reached track %d, which is not selected" % ti
         return None
     if kind[0] == "compeq":
         x, y = c["args"]
